@@ -185,14 +185,14 @@ theorem pySplit_first {sep x : Str} (rest : Str) (hsep : sep ≠ [])
         exfalso
         -- the prefix would fit into (c :: x) ++ sep.dropLast
         have hsplit : c :: x ++ sep ++ rest = (c :: x ++ sep.dropLast) ++ (sep.getLast hsep :: rest) := by
-          conv => lhs; rw [← List.dropLast_append_getLast hsep]
+          conv => lhs; rw [← List.dropLast_concat_getLast hsep]
           simp [List.append_assoc]
         rw [hsplit] at hp
         rcases isPrefixOf_append_cons hp with h1 | _
         · rw [List.cons_append] at h1; rw [h1] at h; exact absurd h.1 (by simp)
         · -- length argument: |sep| ≤ |c :: x ++ sep.dropLast|, so sep is a prefix of it
           have hlen : sep.length ≤ (c :: x ++ sep.dropLast).length := by
-            simp [List.length_dropLast]; have := List.length_pos_of_ne_nil hsep; omega
+            simp [List.length_dropLast]; have := List.length_pos_iff.mpr hsep; omega
           have : sep.isPrefixOf (c :: x ++ sep.dropLast) = true := by
             have h2 := List.isPrefixOf_iff_prefix.mp hp
             exact List.isPrefixOf_iff_prefix.mpr
@@ -203,5 +203,1599 @@ theorem pySplit_first {sep x : Str} (rest : Str) (hsep : sep ≠ [])
     have := ih h.2
     simp only [List.append_assoc] at this
     simp [this, consHead]
+
+/-! ### `strip` -/
+
+/-- non-empty, does not begin or end with white space -/
+def Tight (s : Str) : Prop :=
+  s ≠ [] ∧ (∀ c, s.head? = some c → isPySpace c = false) ∧ (∀ c, s.getLast? = some c → isPySpace c = false)
+
+theorem dropWhile_pre {p : Char → Bool} {pre t : Str} (hpre : ∀ c ∈ pre, p c = true)
+    (ht : ∀ c, t.head? = some c → p c = false) : (pre ++ t).dropWhile p = t := by
+  induction pre with
+  | nil =>
+    cases t with
+    | nil => rfl
+    | cons c t => simp [List.dropWhile, ht c rfl]
+  | cons a pre ih =>
+    simp only [List.cons_append, List.dropWhile, hpre a (by simp)]
+    exact ih (fun c hc => hpre c (by simp [hc]))
+
+theorem strip_pad {pre s post : Str} (hs : Tight s) (hpre : ∀ c ∈ pre, isPySpace c = true)
+    (hpost : ∀ c ∈ post, isPySpace c = true) : strip (pre ++ s ++ post) = s := by
+  obtain ⟨hne, hh, hl⟩ := hs
+  unfold strip lstrip rstrip
+  have h1 : (pre ++ s ++ post).dropWhile isPySpace = s ++ post := by
+    rw [List.append_assoc]
+    apply dropWhile_pre hpre
+    intro c hc
+    cases s with
+    | nil => exact absurd rfl hne
+    | cons a s => simp at hc; subst hc; exact hh a rfl
+  rw [h1, List.reverse_append]
+  rw [dropWhile_pre (p := isPySpace) (pre := post.reverse) (t := s.reverse)]
+  · simp
+  · intro c hc; exact hpost c (by simpa using hc)
+  · intro c hc; rw [List.head?_reverse] at hc; exact hl c hc
+
+theorem strip_tight {s : Str} (hs : Tight s) : strip s = s := by
+  simpa using strip_pad (pre := []) (post := []) hs (by simp) (by simp)
+
+theorem strip_nil : strip [] = [] := rfl
+theorem strip_space : strip [' '] = [] := by decide
+theorem isPySpace_space : isPySpace ' ' = true := by decide
+
+theorem tight_append {a b : Str} (ha : a ≠ []) (hb : b ≠ [])
+    (hh : ∀ c, a.head? = some c → isPySpace c = false) (hl : ∀ c, b.getLast? = some c → isPySpace c = false) :
+    Tight (a ++ b) := by
+  refine ⟨by simp [ha], ?_, ?_⟩
+  · intro c hc; apply hh c
+    cases a with
+    | nil => exact absurd rfl ha
+    | cons x a => simpa using hc
+  · intro c hc; apply hl c
+    rw [List.getLast?_append] at hc
+    cases hb' : b.getLast? with
+    | none => exact absurd (List.getLast?_eq_none_iff.mp hb') hb
+    | some x => rw [hb'] at hc; simpa using hc
+
+/-! ### digits -/
+
+theorem digit_range {c : Char} (h : c.isDigit = true) : 48 ≤ c.toNat ∧ c.toNat ≤ 57 := by
+  simp only [Char.isDigit, Bool.and_eq_true, decide_eq_true_eq] at h
+  have h1 : '0'.val.toNat ≤ c.val.toNat := UInt32.le_iff_toNat_le.mp h.1
+  have h2 : c.val.toNat ≤ '9'.val.toNat := UInt32.le_iff_toNat_le.mp h.2
+  exact ⟨h1, h2⟩
+
+theorem digit_not_space {c : Char} (h : c.isDigit = true) : isPySpace c = false := by
+  have := digit_range h
+  simp only [isPySpace, pySpaceCodes, List.contains_eq_mem, List.mem_cons, List.not_mem_nil, or_false,
+    decide_eq_false_iff_not]
+  omega
+
+theorem digit_ne {c x : Char} (h : c.isDigit = true) (hx : x.isDigit = false) : c ≠ x := by
+  intro e; subst e; rw [h] at hx; exact absurd hx (by simp)
+
+theorem natStr_digits {n : Nat} {c : Char} (h : c ∈ natStr n) : c.isDigit = true :=
+  Nat.isDigit_of_mem_toDigits (by decide) (by decide) h
+
+theorem natStr_ne_nil (n : Nat) : natStr n ≠ [] := Nat.toDigits_ne_nil
+
+theorem digitsVal_append (a : Str) (c : Char) (acc : Nat) :
+    digitsVal (a ++ [c]) acc =
+      (digitsVal a acc).bind (fun v => if c.isDigit then some (v * 10 + (c.toNat - 48)) else none) := by
+  induction a generalizing acc with
+  | nil => simp [digitsVal]
+  | cons x a ih =>
+    simp only [List.cons_append, digitsVal]
+    split
+    · exact ih _
+    · rfl
+
+theorem digitsVal_natStr (n : Nat) : digitsVal (natStr n) 0 = some n := by
+  induction n using Nat.strongRecOn with
+  | _ n ih =>
+    unfold natStr
+    rw [Nat.toDigits_eq_if (by decide)]
+    split
+    · rename_i h
+      simp [digitsVal, Nat.toNat_digitChar_sub_48_of_lt_ten h, h]
+    · rename_i h
+      have := ih (n / 10) (by omega)
+      unfold natStr at this
+      rw [digitsVal_append, this]
+      have hm : n % 10 < 10 := Nat.mod_lt _ (by decide)
+      simp [Nat.toNat_digitChar_sub_48_of_lt_ten hm, hm]
+      omega
+
+theorem natStr_head_digit (n : Nat) : ∃ c r, natStr n = c :: r ∧ c.isDigit = true := by
+  cases h : natStr n with
+  | nil => exact absurd h (natStr_ne_nil n)
+  | cons c r => exact ⟨c, r, rfl, natStr_digits (by rw [h]; simp)⟩
+
+theorem natStr_tight (n : Nat) : Tight (natStr n) := by
+  refine ⟨natStr_ne_nil n, ?_, ?_⟩
+  · intro c hc; exact digit_not_space (natStr_digits (List.mem_of_mem_head? hc))
+  · intro c hc; exact digit_not_space (natStr_digits (List.mem_of_getLast? hc))
+
+/-- `int("<digits of n>") = n` -/
+theorem pyInt_natStr (n : Nat) : pyInt (natStr n) = .ok (n : Int) := by
+  obtain ⟨c, r, hcr, hc⟩ := natStr_head_digit n
+  have hall : ∀ d ∈ natStr n, d.isDigit = true := fun d hd => natStr_digits hd
+  have hany : (natStr n).any (fun c => decide (c.toNat ≥ 128)) = false := by
+    rw [List.any_eq_false]; intro d hd
+    have := digit_range (hall d hd); simp; omega
+  have hsign : splitSign (natStr n) = (false, natStr n) := by
+    rw [hcr]
+    have h1 : c ≠ '-' := digit_ne hc (by decide)
+    have h2 : c ≠ '+' := digit_ne hc (by decide)
+    unfold splitSign; split
+    · rename_i heq; simp at heq; exact absurd heq.1 h1
+    · rename_i heq; simp at heq; exact absurd heq.1 h2
+    · rfl
+  have hus : ∀ d ∈ natStr n, d ≠ '_' := fun d hd => digit_ne (hall d hd) (by decide)
+  have hfilter : (natStr n).filter (· != '_') = natStr n := by
+    rw [List.filter_eq_self]; intro d hd; simpa using hus d hd
+  have hok : underscoresOK (natStr n) = true := by
+    rw [hcr]
+    simp only [underscoresOK, Bool.and_eq_true, bne_iff_ne, ne_eq, Bool.not_eq_true']
+    refine ⟨⟨hus c (by rw [hcr]; simp), ?_⟩, ?_⟩
+    · intro hl
+      have := List.mem_of_getLast? (by simpa using hl : (c :: r).getLast? = some '_')
+      exact hus '_' (by rw [hcr]; exact this) rfl
+    · apply isInfixB_false_of_not_mem (by simp)
+      intro d hd; rw [← hcr] at hd; have := hus d hd; simp [this]
+  have hdp : digitPart (natStr n) = some n := by
+    unfold digitPart; rw [hok, hfilter]; simp only [if_true]
+    rw [hcr]; simp only; rw [← hcr]; exact digitsVal_natStr n
+  unfold pyInt
+  simp only [strip_tight (natStr_tight n), hany, hsign, hdp]
+  rfl
+
+/-! ### `re.split(" \\* | ", s)` -/
+
+theorem foldr_consHead_cons (p h : Str) (t : List Str) : p.foldr consHead (h :: t) = (p ++ h) :: t := by
+  induction p with
+  | nil => rfl
+  | cons c p ih => simp [ih, consHead]
+
+theorem reSplitGo_spacefree {p : Str} (r : Str) (hp : ' ' ∉ p) :
+    reSplitGo (p ++ r) 0 = p.foldr consHead (reSplitGo r 0) := by
+  induction p with
+  | nil => rfl
+  | cons c p ih =>
+    have hc : c ≠ ' ' := fun e => hp (by simp [e])
+    have hpre : [' ', '*', ' '].isPrefixOf (c :: (p ++ r)) = false := by
+      simp [List.isPrefixOf, Ne.symm hc]
+    simp only [List.cons_append, reSplitGo, hpre, List.foldr_cons]
+    simp only [beq_iff_eq, hc, if_false, Bool.false_eq_true]
+    rw [ih (fun h => hp (by simp [h]))]
+
+theorem reSplit_spacefree {k : Str} (hk : ' ' ∉ k) : reSplit k = [k] := by
+  have := reSplitGo_spacefree [] hk
+  simp only [List.append_nil] at this
+  unfold reSplit; rw [this]; simp only [reSplitGo]; rw [foldr_consHead_cons]; simp
+
+theorem reSplit_plain {d k : Str} (hd : ' ' ∉ d) (hk : ' ' ∉ k) : reSplit (d ++ ' ' :: k) = [d, k] := by
+  unfold reSplit
+  rw [reSplitGo_spacefree _ hd]
+  have hpre : [' ', '*', ' '].isPrefixOf (' ' :: k) = false := by
+    cases k with
+    | nil => rfl
+    | cons a k =>
+      cases k with
+      | nil => simp [List.isPrefixOf]
+      | cons b k =>
+        simp only [List.isPrefixOf, beq_self_eq_true, Bool.true_and, Bool.and_true, Bool.and_eq_false_iff,
+          beq_eq_false_iff_ne]
+        right; intro e; exact hk (by simp [← e])
+  have hk' := reSplit_spacefree hk
+  unfold reSplit at hk'
+  simp only [reSplitGo, hpre, beq_self_eq_true, if_true, hk', Bool.false_eq_true, if_false]
+  rw [foldr_consHead_cons]; simp
+
+theorem reSplit_star {d k : Str} (hd : ' ' ∉ d) (hk : ' ' ∉ k) :
+    reSplit (d ++ ' ' :: '*' :: ' ' :: k) = [d, k] := by
+  unfold reSplit
+  rw [reSplitGo_spacefree _ hd]
+  have hk' := reSplit_spacefree hk
+  unfold reSplit at hk'
+  have hpre : [' ', '*', ' '].isPrefixOf (' ' :: '*' :: ' ' :: k) = true := by simp [List.isPrefixOf]
+  simp only [reSplitGo, hpre, if_true, hk']
+  rw [foldr_consHead_cons]; simp
+
+/-! ### `_is_inactive_term` -/
+
+theorem parenBal_scanDepth {s : Str} {d : Nat} (h : parenBal s d = true) :
+    scanDepth (s ++ [')']) ((d : Int) + 1) = true := by
+  induction s generalizing d with
+  | nil =>
+    simp only [parenBal, beq_iff_eq] at h
+    subst h
+    simp [scanDepth]
+  | cons c s ih =>
+    simp only [parenBal] at h
+    simp only [List.cons_append, scanDepth]
+    split at h
+    · rename_i hc
+      simp only [hc, if_true]
+      have := ih h
+      simpa [Int.add_assoc] using this
+    · rename_i hc
+      split at h
+      · rename_i hc2
+        simp only [Bool.and_eq_true, bne_iff_ne, ne_eq] at h
+        simp only [hc, hc2, if_true, Bool.false_eq_true, if_false]
+        obtain ⟨d', rfl⟩ : ∃ d', d = d' + 1 := ⟨d - 1, by omega⟩
+        have := ih (d := d') (by simpa using h.2)
+        have hne : ¬ (((d' + 1 : Nat) : Int) + 1 - 1 == 0) = true := by simp; omega
+        simp only [hne, if_false, Bool.false_eq_true]
+        have e : ((d' + 1 : Nat) : Int) + 1 - 1 = (d' : Int) + 1 := by omega
+        rw [e]; exact this
+      · rename_i hc2
+        simp only [hc, hc2, if_false, Bool.false_eq_true]
+        exact ih h
+
+theorem parenBal_append_noparen {pre s : Str} {d : Nat} (hpre : ∀ c ∈ pre, c ≠ '(' ∧ c ≠ ')') :
+    parenBal (pre ++ s) d = parenBal s d := by
+  induction pre with
+  | nil => rfl
+  | cons c pre ih =>
+    have := hpre c (by simp)
+    simp only [List.cons_append, parenBal, beq_iff_eq, this.1, this.2, if_false]
+    exact ih (fun x hx => hpre x (by simp [hx]))
+
+theorem isInactive_wrapped {body : Str} (h : parenBal body 0 = true) :
+    isInactiveTerm ('(' :: body ++ [')']) = true := by
+  unfold isInactiveTerm
+  have h1 : startsWith ['('] ('(' :: body ++ [')']) = true := by simp [startsWith, List.isPrefixOf]
+  have h2 : endsWith [')'] ('(' :: body ++ [')']) = true := by
+    simp [endsWith, List.isPrefixOf]
+  simp only [h1, h2, Bool.and_self, Bool.not_true, Bool.false_eq_true, if_false]
+  have := parenBal_scanDepth h
+  simpa [scanDepth] using this
+
+theorem isInactive_of_head {c : Char} {r : Str} (hc : c ≠ '(') : isInactiveTerm (c :: r) = false := by
+  unfold isInactiveTerm
+  have : startsWith ['('] (c :: r) = false := by simp [startsWith, List.isPrefixOf, Ne.symm hc]
+  simp [this]
+
+theorem inner_wrapped (body : Str) : inner ('(' :: body ++ [')']) = body := by
+  simp [inner]
+
+/-! ### written terms -/
+
+abbrev plusSep : Str := [' ', '+', ' ']
+
+theorem keyOK_spec {tok k : Str} (h : keyOK tok k = true) :
+    k ≠ [] ∧ ' ' ∉ k ∧ ';' ∉ k ∧ isInfixB tok k = false ∧ k ≠ ['+'] ∧ Tight k := by
+  simp only [keyOK, Bool.and_eq_true, bne_iff_ne, ne_eq, Bool.not_eq_true', List.contains_eq_mem,
+    decide_eq_false_iff_not] at h
+  obtain ⟨⟨⟨⟨⟨⟨h1, h2⟩, h3⟩, h4⟩, h5⟩, h6⟩, h7⟩ := h
+  refine ⟨h1, h2, h3, h4, h5, h1, ?_, ?_⟩
+  · intro c hc; rw [hc] at h6; simpa using h6
+  · intro c hc; rw [hc] at h7; simpa using h7
+
+theorem tokOK_spec {tok : Str} (h : tokOK tok = true) :
+    tok ≠ [] ∧ ∀ c ∈ tok, isPySpace c = false ∧ c.isDigit = false ∧ c ≠ ';' ∧ c ≠ '(' ∧ c ≠ ')' ∧ c ≠ '*' ∧ c ≠ '+' := by
+  simp only [tokOK, Bool.and_eq_true, bne_iff_ne, ne_eq, List.all_eq_true, Bool.not_eq_true',
+    List.contains_eq_mem, decide_eq_false_iff_not] at h
+  refine ⟨h.1, fun c hc => ?_⟩
+  have := h.2 c hc
+  simp only [List.mem_cons, List.not_mem_nil, or_false, not_or] at this
+  exact ⟨this.1.1, this.1.2, this.2.1, this.2.2.1, this.2.2.2.1, this.2.2.2.2.1, this.2.2.2.2.2⟩
+
+theorem tok_space {tok : Str} (h : tokOK tok = true) : ' ' ∉ tok := by
+  intro hc; have := ((tokOK_spec h).2 ' ' hc).1; simp [isPySpace_space] at this
+
+theorem tok_tight {tok : Str} (h : tokOK tok = true) : Tight tok := by
+  obtain ⟨hne, hall⟩ := tokOK_spec h
+  exact ⟨hne, fun c hc => (hall c (List.mem_of_mem_head? hc)).1, fun c hc => (hall c (List.mem_of_getLast? hc)).1⟩
+
+/-- the space-free pieces of a term text -/
+def pieces (t : Term) : List Str :=
+  match t.inactive, t.form with
+  | false, .omit => [t.key]
+  | false, .plain => [natStr t.n, t.key]
+  | false, .star => [natStr t.n, ['*'], t.key]
+  | true, .omit => ['(' :: t.key ++ [')']]
+  | true, .plain => ['(' :: natStr t.n, t.key ++ [')']]
+  | true, .star => ['(' :: natStr t.n, ['*'], t.key ++ [')']]
+
+theorem text_eq_pieces (t : Term) : t.text = joinStrs [' '] (pieces t) := by
+  unfold Term.text Term.body pieces
+  cases hi : t.inactive <;> cases hf : t.form <;> simp [joinStrs]
+
+/-- a piece: non-empty, space-free, not the lone `+`, free of the token and of `;` -/
+def GoodPiece (tok p : Str) : Prop :=
+  p ≠ [] ∧ ' ' ∉ p ∧ p ≠ ['+'] ∧ isInfixB tok p = false ∧ ';' ∉ p
+
+theorem natStr_special {tok : Str} (htok : tokOK tok = true) (n : Nat) : ∀ c ∈ natStr n, c ∉ tok := by
+  intro c hc hct
+  have := ((tokOK_spec htok).2 c hct).2.1
+  rw [natStr_digits hc] at this; exact absurd this (by simp)
+
+theorem good_natStr {tok : Str} (htok : tokOK tok = true) (n : Nat) : GoodPiece tok (natStr n) := by
+  refine ⟨natStr_ne_nil n, ?_, ?_, ?_, ?_⟩
+  · intro h; exact digit_ne (natStr_digits h) (by decide) rfl
+  · intro h; have : '+' ∈ natStr n := by rw [h]; simp
+    exact digit_ne (natStr_digits this) (by decide) rfl
+  · exact isInfixB_false_of_not_mem (tokOK_spec htok).1 (natStr_special htok n)
+  · intro h; exact digit_ne (natStr_digits h) (by decide) rfl
+
+theorem good_star {tok : Str} (htok : tokOK tok = true) : GoodPiece tok ['*'] := by
+  refine ⟨by simp, by simp, by simp, ?_, by simp⟩
+  apply isInfixB_false_of_not_mem (tokOK_spec htok).1
+  intro c hc hct; simp at hc; subst hc; exact ((tokOK_spec htok).2 _ hct).2.2.2.2.2.1 rfl
+
+theorem good_key {tok k : Str} (hk : keyOK tok k = true) : GoodPiece tok k := by
+  obtain ⟨h1, h2, h3, h4, h5, _⟩ := keyOK_spec hk
+  exact ⟨h1, h2, h5, h4, h3⟩
+
+theorem good_open {tok p : Str} (htok : tokOK tok = true) (hp : GoodPiece tok p) : GoodPiece tok ('(' :: p) := by
+  obtain ⟨h1, h2, h3, h4, h5⟩ := hp
+  refine ⟨by simp, ?_, ?_, ?_, ?_⟩
+  · simp [h2]
+  · simp
+  · have := isInfixB_append_cons (sep := tok) (a := []) (b := p) (c := '(')
+      (fun hc => ((tokOK_spec htok).2 _ hc).2.2.2.1 rfl)
+      (isInfixB_false_of_short (by simp; exact List.length_pos_iff.mpr (tokOK_spec htok).1)) h4
+    simpa using this
+  · simp [h5]
+
+theorem good_close {tok p : Str} (htok : tokOK tok = true) (hp : GoodPiece tok p) : GoodPiece tok (p ++ [')']) := by
+  obtain ⟨h1, h2, h3, h4, h5⟩ := hp
+  refine ⟨by simp, ?_, ?_, ?_, ?_⟩
+  · simp [h2]
+  · intro h
+    have := congrArg List.getLast? h
+    simp at this
+  · exact isInfixB_append_cons (sep := tok) (a := p) (b := []) (c := ')')
+      (fun hc => ((tokOK_spec htok).2 _ hc).2.2.2.2.1 rfl) h4
+      (isInfixB_false_of_short (by simp; exact List.length_pos_iff.mpr (tokOK_spec htok).1))
+  · simp [h5]
+
+theorem Term.ok_spec {tok : Str} {t : Term} (h : t.ok tok = true) :
+    keyOK tok t.key = true ∧ 1 ≤ t.n ∧ (t.form = .omit → t.n = 1) ∧
+      (t.inactive = true → parenBal t.key 0 = true) ∧
+      (t.inactive = false → t.form = .omit → isInactiveTerm t.key = false) := by
+  simp only [Term.ok, Bool.and_eq_true, decide_eq_true_eq, Bool.or_eq_true, bne_iff_ne, ne_eq, beq_iff_eq] at h
+  obtain ⟨⟨⟨h1, h2⟩, h3⟩, h4⟩ := h
+  refine ⟨h1, h2, ?_, ?_, ?_⟩
+  · intro hf; rcases h3 with h3 | h3
+    · exact absurd hf h3
+    · exact h3
+  · intro hi; simpa [hi] using h4
+  · intro hi hf
+    simp only [hi, Bool.false_eq_true, if_false, Bool.or_eq_true, bne_iff_ne, ne_eq, Bool.not_eq_true'] at h4
+    rcases h4 with h4 | h4
+    · exact absurd hf h4
+    · exact h4
+
+theorem pieces_good {tok : Str} {t : Term} (htok : tokOK tok = true) (h : t.ok tok = true) :
+    pieces t ≠ [] ∧ ∀ p ∈ pieces t, GoodPiece tok p := by
+  have hk := good_key (Term.ok_spec h).1
+  have hd := good_natStr htok t.n
+  have hs := good_star htok
+  unfold pieces
+  cases t.inactive <;> cases t.form <;> simp only [ne_eq, List.cons_ne_nil, not_false_eq_true, true_and,
+    List.mem_cons, List.not_mem_nil, or_false, forall_eq_or_imp, forall_eq]
+  · exact hk
+  · exact ⟨hd, hk⟩
+  · exact ⟨hd, hs, hk⟩
+  · have := good_open htok (good_close htok hk); simpa using this
+  · exact ⟨good_open htok hd, good_close htok hk⟩
+  · exact ⟨good_open htok hd, hs, good_close htok hk⟩
+
+/-! #### pieces joined by single spaces never produce a spurious `" + "`, token or `;` -/
+
+theorem isInfixB_skip_nonhead {sep' p : Str} {h : Char} (r : Str) (hp : h ∉ p) :
+    isInfixB (h :: sep') (p ++ r) = isInfixB (h :: sep') r := by
+  induction p with
+  | nil => rfl
+  | cons c p ih =>
+    have hc : h ≠ c := fun e => hp (by simp [e])
+    rw [List.cons_append, isInfixB_cons, ih (fun hm => hp (by simp [hm]))]
+    simp [List.isPrefixOf, hc]
+
+theorem plusStep {p : Str} (r : Str) (h1 : p ≠ []) (h2 : ' ' ∉ p) (h3 : p ≠ ['+']) :
+    isInfixB plusSep (' ' :: (p ++ r)) = isInfixB plusSep r := by
+  rw [isInfixB_cons, isInfixB_skip_nonhead r h2]
+  have : plusSep.isPrefixOf (' ' :: (p ++ r)) = false := by
+    cases p with
+    | nil => exact absurd rfl h1
+    | cons a p =>
+      cases p with
+      | nil =>
+        have ha : a ≠ '+' := fun e => h3 (by simp [e])
+        simp [plusSep, List.isPrefixOf, Ne.symm ha]
+      | cons b p =>
+        have hb : b ≠ ' ' := fun e => h2 (by simp [e])
+        simp [plusSep, List.isPrefixOf, Ne.symm hb]
+  rw [this, Bool.false_or]
+
+theorem join_noPlus {tok : Str} {ps : List Str} (r : Str) (hne : ps ≠ []) (hg : ∀ p ∈ ps, GoodPiece tok p) :
+    isInfixB plusSep (' ' :: (joinStrs [' '] ps ++ r)) = isInfixB plusSep r := by
+  induction ps with
+  | nil => exact absurd rfl hne
+  | cons p ps ih =>
+    obtain ⟨h1, h2, h3, _, _⟩ := hg p (by simp)
+    cases ps with
+    | nil => simpa [joinStrs] using plusStep r h1 h2 h3
+    | cons q ps =>
+      have := ih (by simp) (fun x hx => hg x (by simp [hx]))
+      simp only [joinStrs, List.append_assoc, List.cons_append, List.nil_append] at this ⊢
+      rw [plusStep _ h1 h2 h3]; exact this
+
+theorem join_noTok {tok : Str} {ps : List Str} (htok : tokOK tok = true) (hg : ∀ p ∈ ps, GoodPiece tok p) :
+    isInfixB tok (joinStrs [' '] ps) = false := by
+  induction ps with
+  | nil => exact isInfixB_false_of_short (by simp [joinStrs]; exact List.length_pos_iff.mpr (tokOK_spec htok).1)
+  | cons p ps ih =>
+    cases ps with
+    | nil => exact (hg p (by simp)).2.2.2.1
+    | cons q ps =>
+      simp only [joinStrs, List.append_assoc, List.cons_append, List.nil_append]
+      exact isInfixB_append_cons (tok_space htok) (hg p (by simp)).2.2.2.1 (ih (fun x hx => hg x (by simp [hx])))
+
+theorem join_noSemi {tok : Str} {ps : List Str} (hg : ∀ p ∈ ps, GoodPiece tok p) : ';' ∉ joinStrs [' '] ps := by
+  induction ps with
+  | nil => simp [joinStrs]
+  | cons p ps ih =>
+    cases ps with
+    | nil => exact (hg p (by simp)).2.2.2.2
+    | cons q ps =>
+      have := ih (fun x hx => hg x (by simp [hx]))
+      intro hmem
+      simp only [joinStrs, List.mem_append, List.mem_singleton] at hmem
+      rcases hmem with (h | h) | h
+      · exact (hg p (by simp)).2.2.2.2 h
+      · exact absurd h (by decide)
+      · exact this h
+
+/-! #### facts about one admissible term -/
+
+theorem text_noPlus {tok : Str} {t : Term} (htok : tokOK tok = true) (h : t.ok tok = true) :
+    isInfixB plusSep (' ' :: (t.text ++ [' ', '+'])) = false := by
+  rw [text_eq_pieces, join_noPlus _ (pieces_good htok h).1 (pieces_good htok h).2]; decide
+
+theorem text_noTok {tok : Str} {t : Term} (htok : tokOK tok = true) (h : t.ok tok = true) :
+    isInfixB tok t.text = false := by
+  rw [text_eq_pieces]; exact join_noTok htok (pieces_good htok h).2
+
+theorem text_noSemi {tok : Str} {t : Term} (htok : tokOK tok = true) (h : t.ok tok = true) : ';' ∉ t.text := by
+  rw [text_eq_pieces]; exact join_noSemi (pieces_good htok h).2
+
+theorem tight_wrap (x : Str) : Tight ('(' :: x ++ [')']) := by
+  refine ⟨by simp, ?_, ?_⟩
+  · intro c hc; simp at hc; subst hc; decide
+  · intro c hc
+    rw [show '(' :: x ++ [')'] = ('(' :: x) ++ [')'] from rfl, List.getLast?_concat] at hc
+    simp at hc; subst hc; decide
+
+theorem text_tight {tok : Str} {t : Term} (h : t.ok tok = true) : Tight t.text := by
+  obtain ⟨hk, _⟩ := Term.ok_spec h
+  obtain ⟨hne, _, _, _, _, _, hh, hl⟩ := keyOK_spec hk
+  have hd := natStr_tight t.n
+  unfold Term.text
+  cases t.inactive
+  · simp only [Bool.false_eq_true, if_false]
+    unfold Term.body
+    cases t.form <;> simp only
+    · exact ⟨hne, hh, hl⟩
+    · exact tight_append hd.1 (b := ' ' :: t.key) (by simp) hd.2.1
+        (by intro c hc; rw [List.getLast?_cons_of_ne_nil hne] at hc; exact hl c hc)
+    · exact tight_append hd.1 (b := ' ' :: '*' :: ' ' :: t.key) (by simp) hd.2.1
+        (by intro c hc
+            rw [List.getLast?_cons_cons, List.getLast?_cons_cons, List.getLast?_cons_of_ne_nil hne] at hc
+            exact hl c hc)
+  · simp only [if_true]; exact tight_wrap _
+
+/-! #### classification and `_parse_multiplicity` of one term -/
+
+theorem body_parenBal {t : Term} (hk : parenBal t.key 0 = true) : parenBal t.body 0 = true := by
+  have hdig : ∀ c ∈ natStr t.n, c ≠ '(' ∧ c ≠ ')' := fun c hc =>
+    ⟨digit_ne (natStr_digits hc) (by decide), digit_ne (natStr_digits hc) (by decide)⟩
+  unfold Term.body
+  cases t.form <;> simp only
+  · exact hk
+  · rw [parenBal_append_noparen hdig]; simpa [parenBal] using hk
+  · rw [parenBal_append_noparen hdig]; simpa [parenBal] using hk
+
+theorem text_classified {tok : Str} {t : Term} (h : t.ok tok = true) : isInactiveTerm t.text = t.inactive := by
+  obtain ⟨_, _, _, hbal, hact⟩ := Term.ok_spec h
+  unfold Term.text
+  cases hi : t.inactive
+  · simp only [Bool.false_eq_true, if_false]
+    unfold Term.body
+    cases hf : t.form <;> simp only
+    · exact hact hi hf
+    · obtain ⟨c, r, hcr, hc⟩ := natStr_head_digit t.n
+      rw [hcr]; exact isInactive_of_head (digit_ne hc (by decide))
+    · obtain ⟨c, r, hcr, hc⟩ := natStr_head_digit t.n
+      rw [hcr]; exact isInactive_of_head (digit_ne hc (by decide))
+  · simp only [if_true]
+    exact isInactive_wrapped (body_parenBal (hbal hi))
+
+theorem natStr_nofloat (n : Nat) : (natStr n).any (fun c => Printing.floatMarkers.contains c) = false := by
+  rw [List.any_eq_false]; intro c hc
+  have h1 : c ≠ '.' := digit_ne (natStr_digits hc) (by decide)
+  have h2 : c ≠ 'e' := digit_ne (natStr_digits hc) (by decide)
+  simp [floatMarkers_is, h1, h2]
+
+theorem natStr_nospace (n : Nat) : ' ' ∉ natStr n := fun h => digit_ne (natStr_digits h) (by decide) rfl
+
+/-- the loop body of `_parse_multiplicity` on the text of an admissible term: the key gets the written coefficient -/
+theorem parseItem_body {tok : Str} {t : Term} (d : Dict) (h : t.ok tok = true) :
+    parseItem d t.body = .ok (dictAdd d t.key (Coef.ofNat t.n)) := by
+  obtain ⟨hk, _, homit, _, _⟩ := Term.ok_spec h
+  obtain ⟨hne, hsp, _⟩ := keyOK_spec hk
+  have hd := natStr_nospace t.n
+  have hdne := natStr_ne_nil t.n
+  have hfil : List.filter (fun x => x != []) [natStr t.n, t.key] = [natStr t.n, t.key] := by simp [hdne, hne]
+  unfold parseItem Term.body
+  cases hf : t.form <;> simp only
+  · rw [reSplit_spacefree hsp]
+    simp [hne, homit hf]
+  · rw [reSplit_plain hd hsp, hfil]
+    simp only [natStr_nofloat, Bool.false_eq_true, if_false, pyInt_natStr]
+    rfl
+  · rw [reSplit_star hd hsp, hfil]
+    simp only [natStr_nofloat, Bool.false_eq_true, if_false, pyInt_natStr]
+    rfl
+
+/-- what `_parse_multiplicity` accumulates for a list of written terms -/
+def accum (d : Dict) (ts : List Term) : Dict := ts.foldl (fun d t => dictAdd d t.key (Coef.ofNat t.n)) d
+
+theorem parseItems_bodies {tok : Str} (d : Dict) (ts : List Term) (h : ∀ t ∈ ts, t.ok tok = true) :
+    parseItems d (ts.map Term.body) = .ok (accum d ts) := by
+  induction ts generalizing d with
+  | nil => rfl
+  | cons t ts ih =>
+    simp only [List.map_cons, parseItems, parseItem_body d (h t (by simp))]
+    exact ih _ (fun x hx => h x (by simp [hx]))
+
+theorem filter_active {tok : Str} (ts : List Term) (h : ∀ t ∈ ts, t.ok tok = true) :
+    (ts.map Term.text).filter (fun x => !isInactiveTerm x) = (ts.filter (fun t => !t.inactive)).map Term.body := by
+  induction ts with
+  | nil => rfl
+  | cons t ts ih =>
+    have ht := text_classified (h t (by simp))
+    have := ih (fun x hx => h x (by simp [hx]))
+    simp only [List.map_cons, List.filter_cons, ht]
+    cases hi : t.inactive
+    · simp only [Bool.not_false, if_true, List.map_cons, this]
+      simp [Term.text, hi]
+    · simpa using this
+
+theorem filter_inactive {tok : Str} (ts : List Term) (h : ∀ t ∈ ts, t.ok tok = true) :
+    ((ts.map Term.text).filter isInactiveTerm).map inner = (ts.filter (fun t => t.inactive)).map Term.body := by
+  induction ts with
+  | nil => rfl
+  | cons t ts ih =>
+    have ht := text_classified (h t (by simp))
+    have := ih (fun x hx => h x (by simp [hx]))
+    simp only [List.map_cons, List.filter_cons, ht]
+    cases hi : t.inactive
+    · simpa using this
+    · simp only [if_true, List.map_cons, this]
+      simp only [Term.text, hi, if_true]
+      rw [inner_wrapped]
+
+/-! ### one side: `x.split(" + ")` then `strip` -/
+
+theorem sideText_cons2 (t u : Term) (ts : List Term) :
+    sideText (t :: u :: ts) = t.text ++ plusSep ++ sideText (u :: ts) := rfl
+
+theorem side_split {tok : Str} (htok : tokOK tok = true) (ts : List Term) (hne : ts ≠ [])
+    (h : ∀ t ∈ ts, t.ok tok = true) (pre post : Str) (hpre : pre = [] ∨ pre = [' ']) (hpost : post = [] ∨ post = [' ']) :
+    (pySplit plusSep (pre ++ sideText ts ++ post)).map strip = ts.map Term.text := by
+  induction ts generalizing pre with
+  | nil => exact absurd rfl hne
+  | cons t ts ih =>
+    have hno := text_noPlus htok (h t (by simp))
+    have hti := text_tight (h t (by simp))
+    have hpreS : ∀ c ∈ pre, isPySpace c = true := by
+      rcases hpre with rfl | rfl <;> simp [isPySpace_space]
+    have hpostS : ∀ c ∈ post, isPySpace c = true := by
+      rcases hpost with rfl | rfl <;> simp [isPySpace_space]
+    -- `pre ++ text ++ " +"` contains no separator
+    have hno' : isInfixB plusSep (pre ++ t.text ++ [' ', '+']) = false := by
+      rcases hpre with rfl | rfl
+      · simpa using isInfixB_false_of_cons hno
+      · simpa using hno
+    cases ts with
+    | nil =>
+      have hnone : isInfixB plusSep (pre ++ t.text ++ post) = false := by
+        rcases hpost with rfl | rfl
+        · have := isInfixB_false_left (a := pre ++ t.text) (b := [' ', '+']) hno'
+          simpa using this
+        · have := isInfixB_false_left (a := pre ++ t.text ++ [' ']) (b := ['+']) (by simpa using hno')
+          exact this
+      simp only [sideText, List.map_cons, List.map_nil, joinStrs]
+      rw [pySplit_none hnone]
+      simp only [List.map_cons, List.map_nil]
+      rw [strip_pad hti hpreS hpostS]
+    | cons u ts =>
+      rw [sideText_cons2]
+      have e : pre ++ (t.text ++ plusSep ++ sideText (u :: ts)) ++ post
+          = (pre ++ t.text) ++ plusSep ++ ([] ++ sideText (u :: ts) ++ post) := by simp [List.append_assoc]
+      rw [e, pySplit_first _ (by simp [plusSep]) (by simpa [plusSep] using hno')]
+      simp only [List.map_cons]
+      rw [ih (by simp) (fun x hx => h x (by simp [hx])) [] (Or.inl rfl)]
+      have := strip_pad (post := []) hti hpreS (by simp)
+      simp only [List.append_nil] at this
+      rw [this]
+      rfl
+
+theorem sideText_tight {tok : Str} (ts : List Term) (hne : ts ≠ []) (h : ∀ t ∈ ts, t.ok tok = true) :
+    Tight (sideText ts) := by
+  induction ts with
+  | nil => exact absurd rfl hne
+  | cons t ts ih =>
+    have hti := text_tight (h t (by simp))
+    cases ts with
+    | nil => simpa [sideText, joinStrs] using hti
+    | cons u ts =>
+      have := ih (by simp) (fun x hx => h x (by simp [hx]))
+      rw [sideText_cons2, List.append_assoc]
+      exact tight_append hti.1 (by simp [plusSep]) hti.2.1 (by
+        intro c hc
+        rw [List.getLast?_append] at hc
+        cases hl : (sideText (u :: ts)).getLast? with
+        | none => exact absurd (List.getLast?_eq_none_iff.mp hl) this.1
+        | some x => rw [hl] at hc; simp at hc; subst hc; exact this.2.2 x hl)
+
+theorem sideText_noTok {tok : Str} (htok : tokOK tok = true) (ts : List Term) (h : ∀ t ∈ ts, t.ok tok = true) :
+    isInfixB tok (sideText ts) = false := by
+  have hne := (tokOK_spec htok).1
+  induction ts with
+  | nil => exact isInfixB_false_of_short (by simp [sideText, joinStrs]; exact List.length_pos_iff.mpr hne)
+  | cons t ts ih =>
+    cases ts with
+    | nil => simpa [sideText, joinStrs] using text_noTok htok (h t (by simp))
+    | cons u ts =>
+      rw [sideText_cons2]
+      have h1 := text_noTok htok (h t (by simp))
+      have h2 := ih (fun x hx => h x (by simp [hx]))
+      have hplus : '+' ∉ tok := fun hc => ((tokOK_spec htok).2 _ hc).2.2.2.2.2.2 rfl
+      have h3 : isInfixB tok (['+'] ++ ' ' :: sideText (u :: ts)) = false :=
+        isInfixB_append_cons (tok_space htok) (isInfixB_false_of_not_mem hne (by simpa using hplus)) h2
+      have := isInfixB_append_cons (tok_space htok) h1 h3
+      simpa [plusSep, List.append_assoc] using this
+
+theorem sideText_noSemi {tok : Str} (htok : tokOK tok = true) (ts : List Term) (h : ∀ t ∈ ts, t.ok tok = true) :
+    ';' ∉ sideText ts := by
+  induction ts with
+  | nil => simp [sideText, joinStrs]
+  | cons t ts ih =>
+    cases ts with
+    | nil => simpa [sideText, joinStrs] using text_noSemi htok (h t (by simp))
+    | cons u ts =>
+      rw [sideText_cons2]
+      intro hmem
+      simp only [List.mem_append] at hmem
+      rcases hmem with (hm | hm) | hm
+      · exact text_noSemi htok (h t (by simp)) hm
+      · simp [plusSep] at hm
+      · exact ih (fun x hx => h x (by simp [hx])) hm
+
+/-! ### the whole line through `to_reaction` -/
+
+/-- elements of one side after `split(" + ")` and `strip` -/
+def elems (ts : List Term) : List Str := if ts = [] then [[]] else ts.map Term.text
+
+def actD (ts : List Term) : Dict := accum [] (ts.filter (fun t => !t.inactive))
+def inaD (ts : List Term) : Dict := accum [] (ts.filter (fun t => t.inactive))
+
+def leadOf (ts : List Term) : Str := if ts = [] then [' '] else []
+def Rp (ts : List Term) : Str := if ts = [] then [] else sideText ts ++ [' ']
+def Pp (ts : List Term) : Str := if ts = [] then [] else ' ' :: sideText ts
+
+theorem line_decomp (tok : Str) (reac prod : List Term) :
+    writeLine tok reac prod = leadOf reac ++ (Rp reac ++ tok ++ Pp prod) ++ leadOf prod := by
+  unfold writeLine leadOf Rp Pp
+  by_cases hr : reac = [] <;> by_cases hp : prod = [] <;> simp [hr, hp, sideText, joinStrs]
+
+theorem lead_cases (ts : List Term) : leadOf ts = [] ∨ leadOf ts = [' '] := by
+  unfold leadOf; split <;> simp
+
+theorem core_tight {tok : Str} (htok : tokOK tok = true) {reac prod : List Term}
+    (hr : ∀ t ∈ reac, t.ok tok = true) (hp : ∀ t ∈ prod, t.ok tok = true) : Tight (Rp reac ++ tok ++ Pp prod) := by
+  have ht := tok_tight htok
+  have h1 : Tight (Rp reac ++ tok) := by
+    unfold Rp
+    by_cases h : reac = []
+    · simpa [h] using ht
+    · simp only [h, if_false]
+      have := sideText_tight reac h hr
+      exact tight_append (by simp) ht.1 (by
+        intro c hc; apply this.2.1 c
+        cases hs : sideText reac with
+        | nil => exact absurd hs this.1
+        | cons x r => rw [hs] at hc; simpa using hc) ht.2.2
+  unfold Pp
+  by_cases h : prod = []
+  · simpa [h] using h1
+  · simp only [h, if_false]
+    have := sideText_tight prod h hp
+    exact tight_append h1.1 (by simp) h1.2.1 (by
+      intro c hc; rw [List.getLast?_cons_of_ne_nil this.1] at hc; exact this.2.2 c hc)
+
+theorem rstripChars_id {chars s : Str} (h : ∀ c, s.getLast? = some c → chars.contains c = false) :
+    rstripChars chars s = s := by
+  unfold rstripChars
+  have := dropWhile_pre (p := fun c => chars.contains c) (pre := []) (t := s.reverse) (by simp)
+    (by intro c hc; rw [List.head?_reverse] at hc; exact h c hc)
+  simp only [List.nil_append] at this
+  rw [this, List.reverse_reverse]
+
+theorem line_last {tok : Str} (htok : tokOK tok = true) {reac prod : List Term}
+    (hr : ∀ t ∈ reac, t.ok tok = true) (hp : ∀ t ∈ prod, t.ok tok = true) :
+    ∀ c, (writeLine tok reac prod).getLast? = some c → c ≠ '\n' := by
+  intro c hc
+  rw [line_decomp] at hc
+  have hcore := core_tight htok hr hp
+  rcases lead_cases prod with h | h
+  · rw [h, List.append_nil, List.getLast?_append] at hc
+    cases hl : (Rp reac ++ tok ++ Pp prod).getLast? with
+    | none => exact absurd (List.getLast?_eq_none_iff.mp hl) hcore.1
+    | some x =>
+      rw [hl] at hc; simp at hc; subst hc
+      intro e; have := hcore.2.2 x hl; rw [e] at this; exact absurd this (by decide)
+  · rw [h, List.getLast?_concat] at hc
+    simp at hc; subst hc; decide
+
+theorem line_noSemi {tok : Str} (htok : tokOK tok = true) {reac prod : List Term}
+    (hr : ∀ t ∈ reac, t.ok tok = true) (hp : ∀ t ∈ prod, t.ok tok = true) : ';' ∉ writeLine tok reac prod := by
+  unfold writeLine
+  intro h
+  simp only [List.mem_append, List.mem_cons] at h
+  rcases h with h | h | h | h | h
+  · exact sideText_noSemi htok reac hr h
+  · exact absurd h (by decide)
+  · exact ((tokOK_spec htok).2 _ h).2.2.1 rfl
+  · exact absurd h (by decide)
+  · exact sideText_noSemi htok prod hp h
+
+theorem isInfixB_self {tok : Str} (h : tok ≠ []) : isInfixB tok tok = true := by
+  cases tok with
+  | nil => exact absurd rfl h
+  | cons c r =>
+    rw [isInfixB_cons]
+    have := isPrefixOf_append_self (c :: r) []
+    simp only [List.append_nil] at this
+    rw [this]; rfl
+
+theorem core_split {tok : Str} (htok : tokOK tok = true) {reac prod : List Term}
+    (hr : ∀ t ∈ reac, t.ok tok = true) (hp : ∀ t ∈ prod, t.ok tok = true) :
+    pySplit tok (Rp reac ++ tok ++ Pp prod) = [Rp reac, Pp prod] := by
+  have hne := (tokOK_spec htok).1
+  have hshort : ∀ s : Str, s.length < tok.length → isInfixB tok s = false := fun s hs => isInfixB_false_of_short hs
+  have hdl : tok.dropLast.length < tok.length := by
+    have := List.length_pos_iff.mpr hne
+    simp only [List.length_dropLast]; omega
+  have h1 : isInfixB tok (Rp reac ++ tok.dropLast) = false := by
+    unfold Rp
+    by_cases h : reac = []
+    · simpa [h] using hshort _ hdl
+    · simp only [h, if_false, List.append_assoc, List.cons_append, List.nil_append]
+      exact isInfixB_append_cons (tok_space htok) (sideText_noTok htok reac hr) (hshort _ hdl)
+  have h2 : isInfixB tok (Pp prod) = false := by
+    unfold Pp
+    by_cases h : prod = []
+    · simpa [h] using hshort [] (by simpa using List.length_pos_iff.mpr hne)
+    · simp only [h, if_false]
+      have := isInfixB_append_cons (a := []) (tok_space htok)
+        (hshort [] (by simpa using List.length_pos_iff.mpr hne)) (sideText_noTok htok prod hp)
+      simpa using this
+  rw [pySplit_first _ hne h1, pySplit_none h2]
+
+theorem elems_Rp {tok : Str} (htok : tokOK tok = true) {ts : List Term} (h : ∀ t ∈ ts, t.ok tok = true) :
+    (pySplit plusSep (Rp ts)).map strip = elems ts := by
+  unfold Rp elems
+  by_cases hn : ts = []
+  · simp only [hn, if_true]; decide
+  · simp only [hn, if_false]
+    have := side_split htok ts hn h [] [' '] (Or.inl rfl) (Or.inr rfl)
+    simpa using this
+
+theorem elems_Pp {tok : Str} (htok : tokOK tok = true) {ts : List Term} (h : ∀ t ∈ ts, t.ok tok = true) :
+    (pySplit plusSep (Pp ts)).map strip = elems ts := by
+  unfold Pp elems
+  by_cases hn : ts = []
+  · simp only [hn, if_true]; decide
+  · simp only [hn, if_false]
+    have := side_split htok ts hn h [' '] [] (Or.inr rfl) (Or.inl rfl)
+    simpa using this
+
+theorem parseMult_active {tok : Str} (allowed : Allowed) {ts : List Term} (h : ∀ t ∈ ts, t.ok tok = true) :
+    parseMultiplicity ((elems ts).filter (fun x => !isInactiveTerm x)) allowed =
+      if (actD ts).all (fun kv => allowed.has kv.1) then .ok (actD ts) else .error .unknownKey := by
+  unfold elems parseMultiplicity actD
+  by_cases hn : ts = []
+  · subst hn; rfl
+  · simp only [hn, if_false]
+    rw [filter_active ts h, parseItems_bodies [] _ (fun t ht => h t (List.mem_filter.mp ht).1)]
+
+theorem parseMult_inactive {tok : Str} (allowed : Allowed) {ts : List Term} (h : ∀ t ∈ ts, t.ok tok = true) :
+    parseMultiplicity (((elems ts).filter isInactiveTerm).map inner) allowed =
+      if (inaD ts).all (fun kv => allowed.has kv.1) then .ok (inaD ts) else .error .unknownKey := by
+  unfold elems parseMultiplicity inaD
+  by_cases hn : ts = []
+  · subst hn; rfl
+  · simp only [hn, if_false]
+    rw [filter_inactive ts h, parseItems_bodies [] _ (fun t ht => h t (List.mem_filter.mp ht).1)]
+
+/-- all keys of the four dictionaries pass the allowed-key test -/
+def allAllowed (allowed : Allowed) (reac prod : List Term) : Bool :=
+  (actD reac).all (fun kv => allowed.has kv.1) && (inaD reac).all (fun kv => allowed.has kv.1)
+    && (actD prod).all (fun kv => allowed.has kv.1) && (inaD prod).all (fun kv => allowed.has kv.1)
+
+theorem toRaw_written {tok : Str} (allowed : Allowed) (htok : tokOK tok = true) {reac prod : List Term}
+    (hr : ∀ t ∈ reac, t.ok tok = true) (hp : ∀ t ∈ prod, t.ok tok = true) :
+    toRaw allowed tok (writeLine tok reac prod) =
+      if allAllowed allowed reac prod then .ok ⟨actD reac, actD prod, inaD reac, inaD prod, none, []⟩
+      else .error .unknownKey := by
+  have hA : rstripChars Printing.lineEnd (writeLine tok reac prod) = writeLine tok reac prod := by
+    apply rstripChars_id
+    intro c hc; have := line_last htok hr hp c hc
+    simp [lineEnd_is, this]
+  have hB : pySplit Printing.partSep (writeLine tok reac prod) = [writeLine tok reac prod] := by
+    apply pySplit_none
+    rw [partSep_is]
+    apply isInfixB_false_of_not_mem (by simp)
+    intro c hc; simp only [List.mem_singleton]; intro e; subst e; exact line_noSemi htok hr hp hc
+  have hC : strip (writeLine tok reac prod) = Rp reac ++ tok ++ Pp prod := by
+    rw [line_decomp]
+    apply strip_pad (core_tight htok hr hp)
+    · rcases lead_cases reac with h | h <;> simp [h, isPySpace_space]
+    · rcases lead_cases prod with h | h <;> simp [h, isPySpace_space]
+  have hD : isInfixB tok (Rp reac ++ tok ++ Pp prod) = true :=
+    isInfixB_append_right _ (isInfixB_append_left _ (isInfixB_self (tokOK_spec htok).1))
+  have hne : tok.isEmpty = false := by
+    cases tok with
+    | nil => exact absurd rfl (tokOK_spec htok).1
+    | cons _ _ => rfl
+  unfold toRaw
+  simp only [hA, hB, List.headD_cons, hC, hD, hne, core_split htok hr hp, List.map_cons, List.map_nil,
+    termSep_is, elems_Rp htok hr, elems_Pp htok hp, Bool.not_true, Bool.false_eq_true, if_false,
+    parseSides, parseMult_active allowed hr, parseMult_inactive allowed hr, parseMult_active allowed hp,
+    parseMult_inactive allowed hp, allAllowed, List.drop]
+  by_cases h1 : (actD reac).all (fun kv => allowed.has kv.1) = true <;>
+  by_cases h2 : (inaD reac).all (fun kv => allowed.has kv.1) = true <;>
+  by_cases h3 : (actD prod).all (fun kv => allowed.has kv.1) = true <;>
+  by_cases h4 : (inaD prod).all (fun kv => allowed.has kv.1) = true <;> simp [h1, h2, h3, h4]
+
+/-! ### dictionaries -/
+
+/-- the entry a key with total written coefficient `n` must have: absent when 0, the int `n` otherwise -/
+def coefOf (n : Nat) : Option Coef := if n = 0 then none else some (Coef.ofNat n)
+
+def keysOf (d : Dict) : List Str := d.map (·.1)
+
+theorem ofNat_add (a b : Nat) : Coef.add (Coef.ofNat a) (Coef.ofNat b) = Coef.ofNat (a + b) := by
+  simp [Coef.add, Coef.ofNat, Rat.natCast_add]
+
+theorem dictGet_dictAdd (d : Dict) (k : Str) (c : Coef) (k' : Str) :
+    dictGet (dictAdd d k c) k' =
+      if k = k' then some (((dictGet d k).getD (Coef.ofNat 0)).add c) else dictGet d k' := by
+  induction d with
+  | nil => simp [dictAdd, dictGet]
+  | cons h t ih =>
+    obtain ⟨k0, v⟩ := h
+    simp only [dictAdd, dictGet]
+    by_cases h0 : k0 = k
+    · subst h0
+      by_cases h1 : k0 = k' <;> simp [dictGet, h1]
+    · by_cases h1 : k = k'
+      · subst h1; simp [dictGet, h0, ih]
+      · by_cases h2 : k0 = k'
+        · subst h2; simp [dictGet, h0]; intro e; exact absurd e h1
+        · simp [dictGet, h0, h1, h2, ih]
+
+theorem coefOf_getD (m : Nat) : (coefOf m).getD (Coef.ofNat 0) = Coef.ofNat m := by
+  unfold coefOf; split
+  · rename_i h; subst h; rfl
+  · rfl
+
+theorem dictGet_step {d : Dict} {f : Str → Nat} (hf : ∀ k, dictGet d k = coefOf (f k)) (key : Str) {n : Nat}
+    (hn : 1 ≤ n) (k : Str) :
+    dictGet (dictAdd d key (Coef.ofNat n)) k = coefOf (f k + if key = k then n else 0) := by
+  rw [dictGet_dictAdd]
+  by_cases h : key = k
+  · subst h
+    simp only [if_true, hf, coefOf_getD, ofNat_add]
+    unfold coefOf; rw [if_neg (by omega)]
+  · simp [h, hf]
+
+theorem dictGet_accum (inact : Bool) (p : Term → Bool) (hp : ∀ t, p t = true ↔ t.inactive = inact)
+    (ts : List Term) (hn : ∀ t ∈ ts, 1 ≤ t.n) (d : Dict) (f : Str → Nat) (hf : ∀ k, dictGet d k = coefOf (f k)) (k : Str) :
+    dictGet (accum d (ts.filter p)) k = coefOf (f k + count inact k ts) := by
+  induction ts generalizing d f with
+  | nil => simp [accum, count, hf]
+  | cons t ts ih =>
+    simp only [List.filter_cons, count]
+    by_cases hpt : p t = true
+    · have hi := (hp t).mp hpt
+      simp only [hpt, if_true, accum, List.foldl_cons]
+      have := ih (fun x hx => hn x (by simp [hx])) (dictAdd d t.key (Coef.ofNat t.n))
+        (fun k => f k + if t.key = k then t.n else 0) (fun k => dictGet_step hf t.key (hn t (by simp)) k)
+      unfold accum at this
+      rw [this]
+      by_cases hk : t.key = k <;> simp [hi, hk, Nat.add_assoc]
+    · have hi : ¬ t.inactive = inact := fun e => hpt ((hp t).mpr e)
+      simp only [hpt, Bool.false_eq_true, if_false]
+      rw [ih (fun x hx => hn x (by simp [hx])) d f hf]
+      simp [hi]
+
+theorem dictGet_actD (ts : List Term) (hn : ∀ t ∈ ts, 1 ≤ t.n) (k : Str) :
+    dictGet (actD ts) k = coefOf (count false k ts) := by
+  have := dictGet_accum false (fun t => !t.inactive) (by intro t; cases t.inactive <;> simp) ts hn [] (fun _ => 0)
+    (by intro k; rfl) k
+  simpa [actD] using this
+
+theorem dictGet_inaD (ts : List Term) (hn : ∀ t ∈ ts, 1 ≤ t.n) (k : Str) :
+    dictGet (inaD ts) k = coefOf (count true k ts) := by
+  have := dictGet_accum true (fun t => t.inactive) (by intro t; cases t.inactive <;> simp) ts hn [] (fun _ => 0)
+    (by intro k; rfl) k
+  simpa [inaD] using this
+
+theorem keys_dictAdd (d : Dict) (k : Str) (c : Coef) :
+    keysOf (dictAdd d k c) = if k ∈ keysOf d then keysOf d else keysOf d ++ [k] := by
+  induction d with
+  | nil => simp [dictAdd, keysOf]
+  | cons h t ih =>
+    obtain ⟨k0, v⟩ := h
+    simp only [dictAdd]
+    by_cases h0 : k0 = k
+    · subst h0; simp [keysOf]
+    · have ih' := ih
+      simp only [keysOf] at ih' ⊢
+      simp only [h0, if_false, List.map_cons, ih', List.mem_cons, Ne.symm h0, false_or]
+      split <;> rename_i hh <;> simp [hh]
+
+theorem nodup_dictAdd {d : Dict} (k : Str) (c : Coef) (h : (keysOf d).Nodup) : (keysOf (dictAdd d k c)).Nodup := by
+  rw [keys_dictAdd]
+  split
+  · exact h
+  · rename_i hk
+    rw [List.nodup_append]
+    refine ⟨h, by simp, ?_⟩
+    intro a ha b hb; simp at hb; subst hb; intro e; subst e; exact hk ha
+
+theorem nodup_accum (d : Dict) (ts : List Term) (h : (keysOf d).Nodup) : (keysOf (accum d ts)).Nodup := by
+  induction ts generalizing d with
+  | nil => exact h
+  | cons t ts ih => exact ih _ (nodup_dictAdd _ _ h)
+
+theorem mem_insertByKey (kv x : Str × Coef) (d : Dict) : x ∈ insertByKey kv d ↔ x = kv ∨ x ∈ d := by
+  induction d with
+  | nil => simp [insertByKey]
+  | cons h t ih =>
+    simp only [insertByKey]
+    split
+    · simp
+    · simp only [List.mem_cons, ih]
+      constructor
+      · rintro (h1 | h1 | h1) <;> simp [h1]
+      · rintro (h1 | h1 | h1) <;> simp [h1]
+
+theorem mem_sortDict (x : Str × Coef) (d : Dict) : x ∈ sortDict d ↔ x ∈ d := by
+  induction d with
+  | nil => simp [sortDict]
+  | cons h t ih =>
+    have : sortDict (h :: t) = insertByKey h (sortDict t) := rfl
+    rw [this, mem_insertByKey, ih]; simp
+
+theorem mem_keysOf {d : Dict} {k : Str} : k ∈ keysOf d ↔ ∃ v, (k, v) ∈ d := by
+  simp only [keysOf, List.mem_map]
+  constructor
+  · rintro ⟨⟨a, b⟩, h1, h2⟩; simp at h2; subst h2; exact ⟨b, h1⟩
+  · rintro ⟨v, hv⟩; exact ⟨(k, v), hv, rfl⟩
+
+theorem mem_keys_sortDict {d : Dict} {k : Str} : k ∈ keysOf (sortDict d) ↔ k ∈ keysOf d := by
+  simp only [mem_keysOf, mem_sortDict]
+
+theorem dictGet_insertByKey {kv : Str × Coef} {d : Dict} (h : kv.1 ∉ keysOf d) (k : Str) :
+    dictGet (insertByKey kv d) k = if kv.1 = k then some kv.2 else dictGet d k := by
+  induction d with
+  | nil => obtain ⟨a, b⟩ := kv; simp [insertByKey, dictGet]
+  | cons x t ih =>
+    obtain ⟨a, b⟩ := kv
+    obtain ⟨x1, x2⟩ := x
+    have hne : a ≠ x1 := fun e => h (by simp [keysOf, e])
+    have hnt : a ∉ keysOf t := fun e => h (by simp only [keysOf, List.map_cons, List.mem_cons]; right; exact e)
+    simp only [insertByKey]
+    split
+    · simp [dictGet]
+    · simp only [dictGet, ih hnt]
+      by_cases h1 : x1 = k
+      · subst h1; simp [hne]
+      · simp [h1]
+
+theorem nodup_insertByKey {kv : Str × Coef} {d : Dict} (h : kv.1 ∉ keysOf d) (hd : (keysOf d).Nodup) :
+    (keysOf (insertByKey kv d)).Nodup := by
+  induction d with
+  | nil => simp [insertByKey, keysOf]
+  | cons x t ih =>
+    have hne : kv.1 ≠ x.1 := fun e => h (by simp [keysOf, e])
+    have hnt : kv.1 ∉ keysOf t := fun e => h (by simp only [keysOf, List.map_cons, List.mem_cons]; right; exact e)
+    simp only [keysOf, List.map_cons, List.nodup_cons] at hd
+    simp only [insertByKey]
+    split
+    · simp only [keysOf, List.map_cons, List.nodup_cons, List.mem_cons, not_or]
+      exact ⟨⟨hne, hnt⟩, hd.1, hd.2⟩
+    · simp only [keysOf, List.map_cons, List.nodup_cons]
+      refine ⟨?_, ih hnt hd.2⟩
+      intro hm
+      have : x.1 ∈ keysOf (insertByKey kv t) := hm
+      rw [mem_keysOf] at this
+      obtain ⟨v, hv⟩ := this
+      rw [mem_insertByKey] at hv
+      rcases hv with hv | hv
+      · exact hne (by rw [← hv])
+      · exact hd.1 (by simp only [List.mem_map]; exact ⟨(x.1, v), hv, rfl⟩)
+
+theorem sortDict_spec {d : Dict} (hd : (keysOf d).Nodup) :
+    (keysOf (sortDict d)).Nodup ∧ ∀ k, dictGet (sortDict d) k = dictGet d k := by
+  induction d with
+  | nil => exact ⟨by simp [sortDict, keysOf], fun k => rfl⟩
+  | cons x t ih =>
+    simp only [keysOf, List.map_cons, List.nodup_cons] at hd
+    obtain ⟨ih1, ih2⟩ := ih hd.2
+    have hx : x.1 ∉ keysOf (sortDict t) := by rw [mem_keys_sortDict]; exact hd.1
+    have e : sortDict (x :: t) = insertByKey x (sortDict t) := rfl
+    rw [e]
+    refine ⟨nodup_insertByKey hx ih1, fun k => ?_⟩
+    rw [dictGet_insertByKey hx, ih2]
+    obtain ⟨a, b⟩ := x
+    simp only [dictGet]
+
+theorem mem_keysOf_iff_get {d : Dict} {k : Str} : k ∈ keysOf d ↔ dictGet d k ≠ none := by
+  induction d with
+  | nil => simp [keysOf, dictGet]
+  | cons x t ih =>
+    obtain ⟨a, b⟩ := x
+    simp only [keysOf, List.map_cons, List.mem_cons, dictGet]
+    by_cases h : a = k
+    · simp [h]
+    · simp only [h, if_false]
+      rw [← ih]; simp only [keysOf]
+      constructor
+      · rintro (h1 | h1)
+        · exact absurd h1.symm h
+        · exact h1
+      · intro h1; exact Or.inr h1
+
+/-! ### the constructor: sorting and the default checks -/
+
+/-- the reaction object a written line denotes -/
+def parsedOf (reac prod : List Term) : Reaction :=
+  ⟨sortDict (actD reac), sortDict (actD prod), sortDict (inaD reac), sortDict (inaD prod), none, none⟩
+
+theorem nodup_actD (ts : List Term) : (keysOf (actD ts)).Nodup := nodup_accum [] _ (by simp [keysOf])
+theorem nodup_inaD (ts : List Term) : (keysOf (inaD ts)).Nodup := nodup_accum [] _ (by simp [keysOf])
+
+theorem get_sorted_actD (ts : List Term) (hn : ∀ t ∈ ts, 1 ≤ t.n) (k : Str) :
+    dictGet (sortDict (actD ts)) k = coefOf (count false k ts) := by
+  rw [(sortDict_spec (nodup_actD ts)).2, dictGet_actD ts hn]
+
+theorem get_sorted_inaD (ts : List Term) (hn : ∀ t ∈ ts, 1 ≤ t.n) (k : Str) :
+    dictGet (sortDict (inaD ts)) k = coefOf (count true k ts) := by
+  rw [(sortDict_spec (nodup_inaD ts)).2, dictGet_inaD ts hn]
+
+theorem getD_of_coefOf {d : Dict} {k : Str} {n : Nat} (h : dictGet d k = coefOf n) : dictGetD d k = (n : Rat) := by
+  unfold dictGetD; rw [h]
+  by_cases h0 : n = 0
+  · subst h0; simp [coefOf]
+  · simp [coefOf, h0, Coef.ofNat]
+
+theorem AllNat_dictAdd {d : Dict} (k : Str) (n : Nat) (h : ∀ kv ∈ d, ∃ m, kv.2 = Coef.ofNat m) :
+    ∀ kv ∈ dictAdd d k (Coef.ofNat n), ∃ m, kv.2 = Coef.ofNat m := by
+  induction d with
+  | nil => intro kv hkv; simp [dictAdd] at hkv; subst hkv; exact ⟨0 + n, ofNat_add 0 n⟩
+  | cons x t ih =>
+    obtain ⟨a, b⟩ := x
+    intro kv hkv
+    simp only [dictAdd] at hkv
+    split at hkv
+    · simp only [List.mem_cons] at hkv
+      rcases hkv with hkv | hkv
+      · obtain ⟨m, hm⟩ := h (a, b) (by simp)
+        subst hkv; simp only at hm ⊢; rw [hm]; exact ⟨m + n, ofNat_add m n⟩
+      · exact h kv (by simp [hkv])
+    · simp only [List.mem_cons] at hkv
+      rcases hkv with hkv | hkv
+      · exact h kv (by simp [hkv])
+      · exact ih (fun x hx => h x (by simp [hx])) kv hkv
+
+theorem AllNat_accum (d : Dict) (ts : List Term) (h : ∀ kv ∈ d, ∃ m, kv.2 = Coef.ofNat m) :
+    ∀ kv ∈ accum d ts, ∃ m, kv.2 = Coef.ofNat m := by
+  induction ts generalizing d with
+  | nil => exact h
+  | cons t ts ih => exact ih _ (AllNat_dictAdd _ _ h)
+
+theorem AllNat_sorted_accum (ts : List Term) : ∀ kv ∈ sortDict (accum [] ts), ∃ m, kv.2 = Coef.ofNat m := by
+  intro kv hkv; rw [mem_sortDict] at hkv; exact AllNat_accum [] ts (by simp) kv hkv
+
+theorem natDict_checks {d : Dict} (h : ∀ kv ∈ d, ∃ m, kv.2 = Coef.ofNat m) :
+    d.all (fun kv => !(kv.2.val < 0)) = true ∧ d.all (fun kv => kv.2.val.den == 1) = true := by
+  constructor <;> rw [List.all_eq_true] <;> intro kv hkv <;> obtain ⟨m, hm⟩ := h kv hkv <;> rw [hm]
+  · have : ¬ ((m : Rat) < 0) := Rat.not_lt.mpr Rat.natCast_nonneg
+    simp [Coef.ofNat, this]
+  · simp [Coef.ofNat]
+
+theorem parsedOf_positive_integral (reac prod : List Term) :
+    (parsedOf reac prod).allPositive = true ∧ (parsedOf reac prod).allIntegral = true := by
+  have a := natDict_checks (AllNat_sorted_accum (reac.filter (fun t => !t.inactive)))
+  have b := natDict_checks (AllNat_sorted_accum (prod.filter (fun t => !t.inactive)))
+  have c := natDict_checks (AllNat_sorted_accum (reac.filter (fun t => t.inactive)))
+  have d := natDict_checks (AllNat_sorted_accum (prod.filter (fun t => t.inactive)))
+  simp only [Reaction.allPositive, Reaction.allIntegral, Reaction.allDicts, parsedOf, actD, inaD, List.all_cons,
+    List.all_nil, Bool.and_true, Bool.and_eq_true]
+  exact ⟨⟨a.1, b.1, c.1, d.1⟩, ⟨a.2, b.2, c.2, d.2⟩⟩
+
+theorem parsedOf_net (reac prod : List Term) (hr : ∀ t ∈ reac, 1 ≤ t.n) (hp : ∀ t ∈ prod, 1 ≤ t.n) (k : Str) :
+    (parsedOf reac prod).net k = ((netWritten reac prod k : Int) : Rat) := by
+  simp only [Reaction.net, parsedOf, getD_of_coefOf (get_sorted_actD prod hp k), getD_of_coefOf (get_sorted_actD reac hr k),
+    getD_of_coefOf (get_sorted_inaD prod hp k), getD_of_coefOf (get_sorted_inaD reac hr k), netWritten,
+    Rat.intCast_sub, Rat.intCast_add, Rat.intCast_natCast]
+  grind
+
+theorem count_ne_zero_of_mem {ts : List Term} {t : Term} (ht : t ∈ ts) (hn : 1 ≤ t.n) :
+    count t.inactive t.key ts ≠ 0 := by
+  induction ts with
+  | nil => simp at ht
+  | cons x ts ih =>
+    simp only [List.mem_cons] at ht
+    simp only [count]
+    rcases ht with ht | ht
+    · subst ht; simp; omega
+    · have := ih ht; omega
+
+theorem exists_of_count_ne_zero {i : Bool} {k : Str} {ts : List Term} (h : count i k ts ≠ 0) :
+    ∃ t ∈ ts, t.key = k := by
+  induction ts with
+  | nil => simp [count] at h
+  | cons x ts ih =>
+    simp only [count] at h
+    by_cases hx : x.inactive = i ∧ x.key = k
+    · exact ⟨x, by simp, hx.2⟩
+    · simp only [hx, if_false, Nat.zero_add] at h
+      obtain ⟨t, ht, hk⟩ := ih h
+      exact ⟨t, by simp [ht], hk⟩
+
+theorem coefOf_ne_none {n : Nat} : coefOf n ≠ none ↔ n ≠ 0 := by
+  unfold coefOf; split <;> simp_all
+
+theorem mem_keys_parsed_act {ts : List Term} (hn : ∀ t ∈ ts, 1 ≤ t.n) {k : Str} :
+    k ∈ keysOf (sortDict (actD ts)) ↔ count false k ts ≠ 0 := by
+  rw [mem_keysOf_iff_get, get_sorted_actD ts hn, coefOf_ne_none]
+
+theorem mem_keys_parsed_ina {ts : List Term} (hn : ∀ t ∈ ts, 1 ≤ t.n) {k : Str} :
+    k ∈ keysOf (sortDict (inaD ts)) ↔ count true k ts ≠ 0 := by
+  rw [mem_keysOf_iff_get, get_sorted_inaD ts hn, coefOf_ne_none]
+
+theorem parsedOf_keys (reac prod : List Term) (hr : ∀ t ∈ reac, 1 ≤ t.n) (hp : ∀ t ∈ prod, 1 ≤ t.n) (k : Str) :
+    k ∈ (parsedOf reac prod).keys ↔ ∃ t ∈ reac ++ prod, t.key = k := by
+  have e : (parsedOf reac prod).keys = keysOf (sortDict (actD reac)) ++ keysOf (sortDict (actD prod))
+      ++ keysOf (sortDict (inaD reac)) ++ keysOf (sortDict (inaD prod)) := rfl
+  rw [e]
+  simp only [List.mem_append, mem_keys_parsed_act hr, mem_keys_parsed_act hp, mem_keys_parsed_ina hr, mem_keys_parsed_ina hp]
+  constructor
+  · rintro (((h | h) | h) | h) <;> obtain ⟨t, ht, hk⟩ := exists_of_count_ne_zero h
+    · exact ⟨t, Or.inl ht, hk⟩
+    · exact ⟨t, Or.inr ht, hk⟩
+    · exact ⟨t, Or.inl ht, hk⟩
+    · exact ⟨t, Or.inr ht, hk⟩
+  · rintro ⟨t, ht | ht, hk⟩
+    · have := count_ne_zero_of_mem ht (hr t ht)
+      rw [hk] at this
+      cases hi : t.inactive <;> rw [hi] at this <;> simp [this]
+    · have := count_ne_zero_of_mem ht (hp t ht)
+      rw [hk] at this
+      cases hi : t.inactive <;> rw [hi] at this <;> simp [this]
+
+theorem parsedOf_anyEffect (reac prod : List Term) (hr : ∀ t ∈ reac, 1 ≤ t.n) (hp : ∀ t ∈ prod, 1 ≤ t.n) :
+    (parsedOf reac prod).anyEffect = hasEffect reac prod := by
+  rw [Bool.eq_iff_iff]
+  simp only [Reaction.anyEffect, hasEffect, List.any_eq_true, bne_iff_ne, ne_eq]
+  constructor
+  · rintro ⟨k, hk, hnet⟩
+    obtain ⟨t, ht, htk⟩ := (parsedOf_keys reac prod hr hp k).mp hk
+    refine ⟨t, ht, ?_⟩
+    rw [htk]; intro h0; apply hnet
+    rw [parsedOf_net reac prod hr hp, h0]; rfl
+  · rintro ⟨t, ht, hnet⟩
+    refine ⟨t.key, (parsedOf_keys reac prod hr hp t.key).mpr ⟨t, ht, rfl⟩, ?_⟩
+    rw [parsedOf_net reac prod hr hp]
+    intro h0; exact hnet (Rat.intCast_eq_zero_iff.mp h0)
+
+/-- `Reaction.from_string` / `Equilibrium.from_string` on a written line, completely determined -/
+theorem toReaction_written {tok : Str} (allowed : Allowed) (htok : tokOK tok = true) {reac prod : List Term}
+    (hr : ∀ t ∈ reac, t.ok tok = true) (hp : ∀ t ∈ prod, t.ok tok = true) :
+    toReaction allowed tok (writeLine tok reac prod) =
+      if allAllowed allowed reac prod then
+        (if hasEffect reac prod then .ok (parsedOf reac prod) else .error .noEffect)
+      else .error .unknownKey := by
+  have hr1 : ∀ t ∈ reac, 1 ≤ t.n := fun t ht => (Term.ok_spec (hr t ht)).2.1
+  have hp1 : ∀ t ∈ prod, 1 ≤ t.n := fun t ht => (Term.ok_spec (hp t ht)).2.1
+  unfold toReaction
+  rw [toRaw_written allowed htok hr hp]
+  by_cases hA : allAllowed allowed reac prod = true
+  · simp only [hA, if_true, mkReaction]
+    have e : (⟨sortDict (actD reac), sortDict (actD prod), sortDict (inaD reac), sortDict (inaD prod), none, none⟩ : Reaction)
+        = parsedOf reac prod := rfl
+    rw [e]
+    unfold Reaction.check
+    rw [parsedOf_anyEffect reac prod hr1 hp1, (parsedOf_positive_integral reac prod).1,
+      (parsedOf_positive_integral reac prod).2]
+    cases hasEffect reac prod <;> simp
+  · simp only [hA, if_false, Bool.false_eq_true]
+
+/-! ### rejection of unknown keys, for every line -/
+
+theorem parseMultiplicity_allowed {ss : List Str} {allowed : Allowed} {d : Dict}
+    (h : parseMultiplicity ss allowed = .ok d) : d.all (fun kv => allowed.has kv.1) = true := by
+  unfold parseMultiplicity at h
+  split at h
+  · split at h
+    · rename_i h1; simp at h; subst h; exact h1
+    · simp at h
+  · simp at h
+
+theorem parseSides_allowed {allowed : Allowed} {l : List (List Str)} {res : List (Dict × Dict)}
+    (h : parseSides allowed l = .ok res) :
+    ∀ p ∈ res, p.1.all (fun kv => allowed.has kv.1) = true ∧ p.2.all (fun kv => allowed.has kv.1) = true := by
+  induction l generalizing res with
+  | nil => simp [parseSides] at h; subst h; simp
+  | cons e rest ih =>
+    simp only [parseSides] at h
+    split at h
+    · simp at h
+    · rename_i a ha
+      split at h
+      · simp at h
+      · rename_i i hi
+        split at h
+        · simp at h
+        · rename_i r hrr
+          simp at h; subst h
+          intro p hp
+          simp only [List.mem_cons] at hp
+          rcases hp with hp | hp
+          · subst hp; exact ⟨parseMultiplicity_allowed ha, parseMultiplicity_allowed hi⟩
+          · exact ih hrr p hp
+
+theorem toRaw_allowed {allowed : Allowed} {tok line : Str} {raw : RawReaction}
+    (h : toRaw allowed tok line = .ok raw) :
+    raw.reac.all (fun kv => allowed.has kv.1) = true ∧ raw.prod.all (fun kv => allowed.has kv.1) = true ∧
+    raw.inactReac.all (fun kv => allowed.has kv.1) = true ∧ raw.inactProd.all (fun kv => allowed.has kv.1) = true := by
+  unfold toRaw at h
+  simp only at h
+  split at h
+  · simp at h
+  · split at h
+    · simp at h
+    · split at h
+      · simp at h
+      · rename_i r p tl hs
+        simp at h; subst h
+        have := parseSides_allowed hs
+        have h1 := this r (by simp)
+        have h2 := this p (by simp)
+        exact ⟨h1.1, h2.1, h1.2, h2.2⟩
+      · simp at h
+
+theorem all_has_sortDict {allowed : Allowed} {d : Dict} (h : d.all (fun kv => allowed.has kv.1) = true) :
+    ∀ k ∈ keysOf (sortDict d), allowed.has k = true := by
+  intro k hk
+  rw [mem_keys_sortDict, mem_keysOf] at hk
+  obtain ⟨v, hv⟩ := hk
+  exact (List.all_eq_true.mp h) (k, v) hv
+
+theorem toReaction_keys_allowed {allowed : Allowed} {tok line : Str} {r : Reaction}
+    (h : toReaction allowed tok line = .ok r) : ∀ k ∈ r.keys, allowed.has k = true := by
+  unfold toReaction at h
+  split at h
+  · simp at h
+  · rename_i raw hraw
+    obtain ⟨h1, h2, h3, h4⟩ := toRaw_allowed hraw
+    unfold mkReaction Reaction.check at h
+    split at h
+    · simp at h
+    · split at h
+      · simp at h
+      · split at h
+        · simp at h
+        · simp at h; subst h
+          intro k hk
+          simp only [Reaction.keys, List.mem_append] at hk
+          rcases hk with ((hk | hk) | hk) | hk
+          · exact all_has_sortDict h1 k hk
+          · exact all_has_sortDict h2 k hk
+          · exact all_has_sortDict h3 k hk
+          · exact all_has_sortDict h4 k hk
+
+/-! ### `__eq__` is reflexive -/
+
+theorem dictEq_refl (d : Dict) : dictEq d d = true := by
+  induction d with
+  | nil => rfl
+  | cons x t ih => obtain ⟨a, b⟩ := x; simp [dictEq, ih]
+
+theorem Reaction.eq_refl (r : Reaction) : Reaction.eq r r = true := by
+  simp [Reaction.eq, dictEq_refl]
+
+/-! ### printing, then parsing -/
+
+/-- a printable side: keys strictly increasing (what `_init_stoich` produces), every coefficient an int `n ≥ 1`,
+    every key admissible and not itself of the shape `( … )` -/
+def GoodEntry (tok : Str) (kv : Str × Coef) : Prop :=
+  ∃ n, 1 ≤ n ∧ kv.2 = Coef.ofNat n ∧ keyOK tok kv.1 = true ∧ isInactiveTerm kv.1 = false
+
+def SortedKeys : Dict → Prop
+  | [] => True
+  | x :: t => (∀ y ∈ t, strLe x.1 y.1 = true ∧ x.1 ≠ y.1) ∧ SortedKeys t
+
+def GoodDict (tok : Str) (d : Dict) : Prop := SortedKeys d ∧ ∀ kv ∈ d, GoodEntry tok kv
+
+/-- the written term of a dictionary entry, as `_Reaction_parts` writes it: coefficient omitted when it is 1 -/
+def termOf (kv : Str × Coef) : Term :=
+  let n := kv.2.val.num.toNat
+  ⟨kv.1, n, if n = 1 then .omit else .plain, false⟩
+
+def termsOf (d : Dict) : List Term := d.map termOf
+
+theorem termOf_ofNat (k : Str) (n : Nat) : termOf (k, Coef.ofNat n) = ⟨k, n, if n = 1 then .omit else .plain, false⟩ := by
+  by_cases h : n = 1 <;> simp [termOf, Coef.ofNat, h]
+
+theorem termOf_ok {tok : Str} {kv : Str × Coef} (h : GoodEntry tok kv) : (termOf kv).ok tok = true := by
+  obtain ⟨k, c⟩ := kv
+  obtain ⟨n, hn, hc, hk, hi⟩ := h
+  simp only at hc hk hi; subst hc
+  rw [termOf_ofNat]
+  by_cases h1 : n = 1
+  · subst h1; simp [Term.ok, hk, hi]
+  · simp [Term.ok, hk, h1, hn]
+
+theorem coefStr_ofNat (n : Nat) : coefStr (Coef.ofNat n) = some (natStr n) := by
+  have : ¬ ((n : Int) < 0) := by omega
+  simp [coefStr, Coef.ofNat, natStr, this]
+
+theorem termStrs_good {tok : Str} {d : Dict} (h : ∀ kv ∈ d, GoodEntry tok kv) :
+    termStrs d = some ((termsOf d).map Term.text) := by
+  induction d with
+  | nil => rfl
+  | cons x t ih =>
+    obtain ⟨k, c⟩ := x
+    obtain ⟨n, hn, hc, _, _⟩ := h (k, c) (by simp)
+    simp only at hc; subst hc
+    have ih' := ih (fun kv hkv => h kv (by simp [hkv]))
+    have h0 : ((Coef.ofNat n).val == 0) = false := by
+      simp only [Coef.ofNat, beq_eq_false_iff_ne, ne_eq, Rat.natCast_eq_zero_iff]; omega
+    simp only [termStrs, h0, Bool.false_eq_true, if_false, ih', termsOf, List.map_cons, termOf_ofNat]
+    by_cases h1 : n = 1
+    · subst h1
+      have : ((Coef.ofNat 1).val == 1) = true := by simp [Coef.ofNat]
+      simp [this, Term.text, Term.body]
+    · have : ((Coef.ofNat n).val == 1) = false := by
+        simp only [Coef.ofNat, beq_eq_false_iff_ne, ne_eq]
+        intro e; apply h1
+        have : (n : Rat) = ((1 : Nat) : Rat) := by simpa using e
+        exact Rat.natCast_inj.mp this
+      simp [this, h1, coefStr_ofNat, Term.text, Term.body, coeffSpace_is]
+
+theorem joinStrs_sideText (ts : List Term) : joinStrs Printing.termJoin (ts.map Term.text) = sideText ts := by
+  rw [termJoin_is.1]; rfl
+
+theorem reactionStr_good {tok : Str} {r : Reaction} (hre : ∀ kv ∈ r.reac, GoodEntry tok kv)
+    (hpr : ∀ kv ∈ r.prod, GoodEntry tok kv) (hir : r.inactReac = []) (hip : r.inactProd = []) :
+    reactionStr tok r = some (writeLine tok (termsOf r.reac) (termsOf r.prod)) := by
+  unfold reactionStr
+  rw [termStrs_good hre, termStrs_good hpr, hir, hip]
+  simp only [termStrs, List.length_nil, Nat.lt_irrefl, if_false, List.append_nil]
+  have e2 : joinStrs Printing.termJoinProd ((termsOf r.prod).map Term.text) = sideText (termsOf r.prod) := by
+    rw [termJoin_is.2]; rfl
+  rw [joinStrs_sideText, e2]
+  simp [writeLine, aroundArrow_is.1, aroundArrow_is.2, List.append_assoc]
+
+theorem accum_fresh (pre suf : Dict) (hs : ∀ kv ∈ suf, ∃ n, kv.2 = Coef.ofNat n)
+    (hnd : (keysOf (pre ++ suf)).Nodup) : accum pre (termsOf suf) = pre ++ suf := by
+  induction suf generalizing pre with
+  | nil => simp [accum, termsOf]
+  | cons x t ih =>
+    obtain ⟨k, c⟩ := x
+    obtain ⟨n, hc⟩ := hs (k, c) (by simp)
+    simp only at hc; subst hc
+    have hk : k ∉ keysOf pre := by
+      simp only [keysOf, List.map_append, List.map_cons] at hnd
+      have := (List.nodup_append.mp hnd).2.2
+      intro hm; exact this k hm k (by simp) rfl
+    have hadd : dictAdd pre k (Coef.ofNat n) = pre ++ [(k, Coef.ofNat n)] := by
+      clear ih hnd hs
+      induction pre with
+      | nil => simp [dictAdd, ofNat_add]
+      | cons y p ihp =>
+        obtain ⟨a, b⟩ := y
+        have hne : a ≠ k := fun e => hk (by simp [keysOf, e])
+        have hkp : k ∉ keysOf p := fun e => hk (by simp only [keysOf, List.map_cons, List.mem_cons]; right; exact e)
+        simp [dictAdd, hne, ihp hkp]
+    simp only [termsOf, List.map_cons, termOf_ofNat, accum, List.foldl_cons, hadd]
+    have := ih (pre ++ [(k, Coef.ofNat n)]) (fun kv hkv => hs kv (by simp [hkv])) (by simpa [List.append_assoc] using hnd)
+    simp only [accum, termsOf] at this
+    rw [this]; simp
+
+theorem sortedKeys_nodup {d : Dict} (h : SortedKeys d) : (keysOf d).Nodup := by
+  induction d with
+  | nil => simp [keysOf]
+  | cons x t ih =>
+    simp only [keysOf, List.map_cons, List.nodup_cons]
+    refine ⟨?_, ih h.2⟩
+    intro hm
+    simp only [List.mem_map] at hm
+    obtain ⟨y, hy, hxy⟩ := hm
+    exact (h.1 y hy).2 hxy.symm
+
+theorem sortDict_sorted {d : Dict} (h : SortedKeys d) : sortDict d = d := by
+  induction d with
+  | nil => rfl
+  | cons x t ih =>
+    have e : sortDict (x :: t) = insertByKey x (sortDict t) := rfl
+    rw [e, ih h.2]
+    cases t with
+    | nil => rfl
+    | cons y t' => simp [insertByKey, (h.1 y (by simp)).1]
+
+theorem termsOf_active (d : Dict) : (termsOf d).filter (fun t => !t.inactive) = termsOf d := by
+  rw [List.filter_eq_self]; intro t ht
+  simp only [termsOf, List.mem_map] at ht
+  obtain ⟨kv, _, rfl⟩ := ht; rfl
+
+theorem termsOf_inactive (d : Dict) : (termsOf d).filter (fun t => t.inactive) = [] := by
+  rw [List.filter_eq_nil_iff]; intro t ht
+  simp only [termsOf, List.mem_map] at ht
+  obtain ⟨kv, _, rfl⟩ := ht; simp [termOf]
+
+theorem parsedOf_termsOf {tok : Str} {a b : Dict} (ha : GoodDict tok a) (hb : GoodDict tok b) :
+    parsedOf (termsOf a) (termsOf b) = ⟨a, b, [], [], none, none⟩ := by
+  have nat : ∀ {d : Dict}, GoodDict tok d → ∀ kv ∈ d, ∃ n, kv.2 = Coef.ofNat n := by
+    intro d hd kv hkv; obtain ⟨n, _, hc, _⟩ := hd.2 kv hkv; exact ⟨n, hc⟩
+  have ea : actD (termsOf a) = a := by
+    unfold actD; rw [termsOf_active]
+    simpa using accum_fresh [] a (nat ha) (by simpa using sortedKeys_nodup ha.1)
+  have eb : actD (termsOf b) = b := by
+    unfold actD; rw [termsOf_active]
+    simpa using accum_fresh [] b (nat hb) (by simpa using sortedKeys_nodup hb.1)
+  have ia : inaD (termsOf a) = [] := by unfold inaD; rw [termsOf_inactive]; rfl
+  have ib : inaD (termsOf b) = [] := by unfold inaD; rw [termsOf_inactive]; rfl
+  unfold parsedOf
+  rw [ea, eb, ia, ib, sortDict_sorted ha.1, sortDict_sorted hb.1]
+  rfl
+
+/-- parse ∘ print on a reaction without inactive groups returns the same dictionaries -/
+theorem parse_print {tok : Str} (htok : tokOK tok = true) {r : Reaction} (hre : GoodDict tok r.reac)
+    (hpr : GoodDict tok r.prod) (hir : r.inactReac = []) (hip : r.inactProd = []) (heff : r.anyEffect = true) :
+    ∃ s, printReaction tok false false r = some s ∧
+      toReaction .none tok s = .ok ⟨r.reac, r.prod, [], [], none, none⟩ := by
+  refine ⟨writeLine tok (termsOf r.reac) (termsOf r.prod), ?_, ?_⟩
+  · unfold printReaction; rw [reactionStr_good hre.2 hpr.2 hir hip]
+  · have hr : ∀ t ∈ termsOf r.reac, t.ok tok = true := by
+      intro t ht; simp only [termsOf, List.mem_map] at ht
+      obtain ⟨kv, hkv, rfl⟩ := ht; exact termOf_ok (hre.2 kv hkv)
+    have hp : ∀ t ∈ termsOf r.prod, t.ok tok = true := by
+      intro t ht; simp only [termsOf, List.mem_map] at ht
+      obtain ⟨kv, hkv, rfl⟩ := ht; exact termOf_ok (hpr.2 kv hkv)
+    have hr1 : ∀ t ∈ termsOf r.reac, 1 ≤ t.n := fun t ht => (Term.ok_spec (hr t ht)).2.1
+    have hp1 : ∀ t ∈ termsOf r.prod, 1 ≤ t.n := fun t ht => (Term.ok_spec (hp t ht)).2.1
+    have he : hasEffect (termsOf r.reac) (termsOf r.prod) = true := by
+      rw [← parsedOf_anyEffect _ _ hr1 hp1, parsedOf_termsOf hre hpr]
+      simpa [Reaction.anyEffect, Reaction.keys, Reaction.net, hir, hip] using heff
+    rw [toReaction_written .none htok hr hp, he, parsedOf_termsOf hre hpr]
+    simp [allAllowed, Allowed.has]
+
+/-! ### lines that carry a parameter: `stoichiometry; parameter` -/
+
+theorem toRaw_written_param {tok : Str} (allowed : Allowed) (htok : tokOK tok = true) {reac prod : List Term}
+    (hr : ∀ t ∈ reac, t.ok tok = true) (hp : ∀ t ∈ prod, t.ok tok = true) {p : Str} (hpt : Tight p) (hps : ';' ∉ p) :
+    toRaw allowed tok (writeLine tok reac prod ++ ';' :: ' ' :: p) =
+      if allAllowed allowed reac prod then .ok ⟨actD reac, actD prod, inaD reac, inaD prod, some p, []⟩
+      else .error .unknownKey := by
+  have hA : rstripChars Printing.lineEnd (writeLine tok reac prod ++ ';' :: ' ' :: p)
+      = writeLine tok reac prod ++ ';' :: ' ' :: p := by
+    apply rstripChars_id
+    intro c hc
+    have e : writeLine tok reac prod ++ ';' :: ' ' :: p = (writeLine tok reac prod ++ [';', ' ']) ++ p := by simp
+    rw [e, List.getLast?_append] at hc
+    cases hl : p.getLast? with
+    | none => exact absurd (List.getLast?_eq_none_iff.mp hl) hpt.1
+    | some x =>
+      rw [hl] at hc; simp at hc; subst hc
+      have hx := hpt.2.2 x hl
+      have : x ≠ '\n' := by intro e; rw [e] at hx; exact absurd hx (by decide)
+      simp [lineEnd_is, this]
+  have hB : pySplit Printing.partSep (writeLine tok reac prod ++ ';' :: ' ' :: p)
+      = [writeLine tok reac prod, ' ' :: p] := by
+    rw [partSep_is]
+    have e : writeLine tok reac prod ++ ';' :: ' ' :: p = writeLine tok reac prod ++ [';'] ++ (' ' :: p) := by simp
+    rw [e, pySplit_first _ (by simp)]
+    · rw [pySplit_none]
+      apply isInfixB_false_of_not_mem (by simp)
+      intro c hc; simp only [List.mem_singleton]; intro e; subst e
+      simp only [List.mem_cons] at hc
+      rcases hc with hc | hc
+      · exact absurd hc (by decide)
+      · exact hps hc
+    · simp only [List.dropLast_singleton, List.append_nil]
+      apply isInfixB_false_of_not_mem (by simp)
+      intro c hc; simp only [List.mem_singleton]; intro e; subst e; exact line_noSemi htok hr hp hc
+  have hP : strip (' ' :: p) = p := by
+    have := strip_pad (pre := [' ']) (post := []) hpt (by simp [isPySpace_space]) (by simp)
+    simpa using this
+  have hC : strip (writeLine tok reac prod) = Rp reac ++ tok ++ Pp prod := by
+    rw [line_decomp]
+    apply strip_pad (core_tight htok hr hp)
+    · rcases lead_cases reac with h | h <;> simp [h, isPySpace_space]
+    · rcases lead_cases prod with h | h <;> simp [h, isPySpace_space]
+  have hD : isInfixB tok (Rp reac ++ tok ++ Pp prod) = true :=
+    isInfixB_append_right _ (isInfixB_append_left _ (isInfixB_self (tokOK_spec htok).1))
+  have hne : tok.isEmpty = false := by
+    cases tok with
+    | nil => exact absurd rfl (tokOK_spec htok).1
+    | cons _ _ => rfl
+  unfold toRaw
+  simp only [hA, hB, List.headD_cons, hC, hD, hne, hP, core_split htok hr hp, List.map_cons, List.map_nil,
+    termSep_is, elems_Rp htok hr, elems_Pp htok hp, Bool.not_true, Bool.false_eq_true, if_false,
+    parseSides, parseMult_active allowed hr, parseMult_inactive allowed hr, parseMult_active allowed hp,
+    parseMult_inactive allowed hp, allAllowed, List.drop]
+  by_cases h1 : (actD reac).all (fun kv => allowed.has kv.1) = true <;>
+  by_cases h2 : (inaD reac).all (fun kv => allowed.has kv.1) = true <;>
+  by_cases h3 : (actD prod).all (fun kv => allowed.has kv.1) = true <;>
+  by_cases h4 : (inaD prod).all (fun kv => allowed.has kv.1) = true <;> simp [h1, h2, h3, h4]
+
+theorem toReaction_written_param {tok : Str} (htok : tokOK tok = true) {reac prod : List Term}
+    (hr : ∀ t ∈ reac, t.ok tok = true) (hp : ∀ t ∈ prod, t.ok tok = true) {p : Str} (hpt : Tight p) (hps : ';' ∉ p)
+    (heff : hasEffect reac prod = true) :
+    toReaction .none tok (writeLine tok reac prod ++ ';' :: ' ' :: p) =
+      .ok { parsedOf reac prod with param := some p } := by
+  have hr1 : ∀ t ∈ reac, 1 ≤ t.n := fun t ht => (Term.ok_spec (hr t ht)).2.1
+  have hp1 : ∀ t ∈ prod, 1 ≤ t.n := fun t ht => (Term.ok_spec (hp t ht)).2.1
+  unfold toReaction
+  rw [toRaw_written_param .none htok hr hp hpt hps]
+  have hA : allAllowed .none reac prod = true := by simp [allAllowed, Allowed.has]
+  simp only [hA, if_true, mkReaction]
+  have h1 : Reaction.anyEffect ⟨sortDict (actD reac), sortDict (actD prod), sortDict (inaD reac), sortDict (inaD prod), some p, none⟩
+      = (parsedOf reac prod).anyEffect := rfl
+  have h2 : Reaction.allPositive ⟨sortDict (actD reac), sortDict (actD prod), sortDict (inaD reac), sortDict (inaD prod), some p, none⟩
+      = (parsedOf reac prod).allPositive := rfl
+  have h3 : Reaction.allIntegral ⟨sortDict (actD reac), sortDict (actD prod), sortDict (inaD reac), sortDict (inaD prod), some p, none⟩
+      = (parsedOf reac prod).allIntegral := rfl
+  unfold Reaction.check
+  rw [h1, h2, h3, parsedOf_anyEffect reac prod hr1 hp1, heff, (parsedOf_positive_integral reac prod).1,
+    (parsedOf_positive_integral reac prod).2]
+  rfl
+
+/-- parse ∘ print with the parameter printed: the parser receives exactly the printed parameter text -/
+theorem parse_print_param {tok : Str} (htok : tokOK tok = true) {r : Reaction} (hre : GoodDict tok r.reac)
+    (hpr : GoodDict tok r.prod) (hir : r.inactReac = []) (hip : r.inactProd = []) (heff : r.anyEffect = true)
+    {p : Str} (hparam : r.param = some p) (hpt : Tight p) (hps : ';' ∉ p) :
+    ∃ s, printReaction tok true false r = some s ∧
+      toReaction .none tok s = .ok ⟨r.reac, r.prod, [], [], some p, none⟩ := by
+  refine ⟨writeLine tok (termsOf r.reac) (termsOf r.prod) ++ ';' :: ' ' :: p, ?_, ?_⟩
+  · unfold printReaction; rw [reactionStr_good hre.2 hpr.2 hir hip, hparam]
+    simp [paramSeparator_is]
+  · have hr : ∀ t ∈ termsOf r.reac, t.ok tok = true := by
+      intro t ht; simp only [termsOf, List.mem_map] at ht
+      obtain ⟨kv, hkv, rfl⟩ := ht; exact termOf_ok (hre.2 kv hkv)
+    have hp : ∀ t ∈ termsOf r.prod, t.ok tok = true := by
+      intro t ht; simp only [termsOf, List.mem_map] at ht
+      obtain ⟨kv, hkv, rfl⟩ := ht; exact termOf_ok (hpr.2 kv hkv)
+    have hr1 : ∀ t ∈ termsOf r.reac, 1 ≤ t.n := fun t ht => (Term.ok_spec (hr t ht)).2.1
+    have hp1 : ∀ t ∈ termsOf r.prod, 1 ≤ t.n := fun t ht => (Term.ok_spec (hp t ht)).2.1
+    have he : hasEffect (termsOf r.reac) (termsOf r.prod) = true := by
+      rw [← parsedOf_anyEffect _ _ hr1 hp1, parsedOf_termsOf hre hpr]
+      simpa [Reaction.anyEffect, Reaction.keys, Reaction.net, hir, hip] using heff
+    rw [toReaction_written_param htok hr hp hpt hps he, parsedOf_termsOf hre hpr]
 
 end ChemModel.ReactionText
